@@ -22,6 +22,7 @@ R0 = Register("R0", RegisterDirection.Read)
 RW1 = Register("RW1", RegisterDirection.Both)
 W2 = Register("W2", RegisterDirection.Write)
 READ_REGS = [R0, RW1]
+R3 = Register("R3", RegisterDirection.Read)      # read on its own only (events r3_*), never part of the batch
 WRITE_REGS = [RW1, W2]
 
 
@@ -111,6 +112,8 @@ EV_QUICK = (
 )
 # C24, second exploration: single-register writes (the other registers are not re-commanded) next to the batch cycle
 EV_SINGLE = ("wb_new_ok", "wb_new_fail", "wb_same_ok", "w_new_ok", "w_new_ok_pf", "w_same_ok", "w_new_fail", "rb_fail", "tick_ok", "el_rec")
+# C23, second exploration: a register that is read on its own next to the batch of the other registers
+EV_READS = ("rb_ok", "rb_fail", "r3_ok", "r3_fail", "r_ok", "el_rec", "tick_ok")
 EV_THOROUGH = EV_QUICK + ("r_ok", "r_fail", "w_new_ok", "w_new_fail", "w_same_ok", "el_small", "wb_half_ok", "w_new_partial_fail")
 
 
@@ -154,15 +157,15 @@ class Sys:
         calls0 = f.calls
         commanded0 = dict(self.commanded)
         try:
-            if ev in ("rb_ok", "rb_fail", "r_ok", "r_fail"):
-                regs = READ_REGS if ev.startswith("rb") else [R0]
+            if ev in ("rb_ok", "rb_fail", "r_ok", "r_fail", "r3_ok", "r3_fail"):
+                regs = READ_REGS if ev.startswith("rb") else [R3] if ev.startswith("r3") else [R0]
                 for r in regs:
                     f.inp[r.name] = -self._fresh() - 10   # inputs are negative, outputs positive: never equal
                 f.fail_batch = ev.endswith("fail")
                 if ev.startswith("rb"):
                     rec["ret"] = list(d.read_batch(regs))
                 else:
-                    rec["ret"] = [d.read(R0)]
+                    rec["ret"] = [d.read(regs[0])]
                 rec["regs"] = [r.name for r in regs]
                 if not f.fail_batch and f.calls > calls0:
                     for r in regs:
@@ -382,7 +385,7 @@ class Model:
 
 
 def event_kind(ev: str, pre_state: str) -> str:
-    if ev.startswith(("rb_", "r_")):
+    if ev.startswith(("rb_", "r_", "r3_")):
         return "rw_err" if ev.endswith("fail") else "rw_ok"
     if ev.startswith(("wb_", "w_")):
         return "rw_err" if ev.endswith("fail") else "rw_ok"
